@@ -4,4 +4,9 @@ go 1.19
 
 require pault.ag/go/debian v0.0.0
 
+require (
+	golang.org/x/crypto v0.9.0 // indirect
+	pault.ag/go/topsort v0.1.1 // indirect
+)
+
 replace pault.ag/go/debian => /repo
